@@ -393,12 +393,75 @@ def live_findings(tier, seed, search):
     return sub
 
 
+def adoption_of_every_order_type(res, seed):
+    """a restart adopts what the exchange holds for a known strategy - whatever the order type: LIMIT, LIMIT_ON_CLOSE and
+    MARKET_ON_CLOSE bets of both sides, resting, part matched and complete.  The adopted order carries the exchange's terms (price,
+    size, starting-price liability, side, persistence) and counts towards the strategy's exposure accordingly."""
+    import livedomain as ld
+    from unittest import mock
+    from betfairlightweight.resources.bettingresources import CurrentOrder
+    rng = random.Random(seed * 101 + 7)
+    for case in range(60):
+        w2 = ld.LiveWorld(random.Random(1), strategy_names=("alpha",), with_market=False)
+        try:
+            from flumine.events import events
+            st = w2.strategies[0]
+            bets = []
+            for k in range(rng.randint(1, 4)):
+                kind = rng.choice(["LIMIT", "LIMIT", "LIMIT_ON_CLOSE", "LIMIT_ON_CLOSE", "MARKET_ON_CLOSE"])
+                side = rng.choice(["BACK", "LAY"])
+                price = rng.choice([2.0, 3.5, 5.0, 1.5])
+                size = rng.choice([2.0, 4.0, 10.0])
+                liab = rng.choice([12.0, 30.0, 20.0])
+                matched = rng.choice([0.0, 0.0, size / 2, size]) if kind == "LIMIT" else 0.0
+                status = "EXECUTION_COMPLETE" if (kind == "LIMIT" and matched == size) else "EXECUTABLE"
+                bets.append(dict(bet=900 + k, kind=kind, side=side, price=price, size=size, liab=liab, matched=matched, status=status,
+                                 sel=1 + k % 2, ref="%s-%d" % (st.name_hash, 140000000000000000 + case * 10 + k)))
+            cos = [CurrentOrder(**{
+                "betId": str(b["bet"]), "marketId": w2.market_id, "selectionId": b["sel"], "handicap": 0.0,
+                "priceSize": {"price": b["price"] if b["kind"] != "MARKET_ON_CLOSE" else 0.0, "size": b["size"] if b["kind"] == "LIMIT" else 0.0},
+                "bspLiability": b["liab"] if b["kind"] != "LIMIT" else 0.0, "side": b["side"], "status": b["status"],
+                "persistenceType": "LAPSE" if b["kind"] == "LIMIT" else "MARKET_ON_CLOSE", "orderType": b["kind"], "placedDate": "2030-01-01T10:00:00.000Z",
+                "averagePriceMatched": b["price"] if b["matched"] else 0.0, "sizeMatched": b["matched"],
+                "sizeRemaining": (b["size"] - b["matched"]) if b["kind"] == "LIMIT" else 0.0,
+                "sizeLapsed": 0.0, "sizeCancelled": 0.0, "sizeVoided": 0.0, "customerOrderRef": b["ref"], "customerStrategyRef": "host"}) for b in bets]
+            for _ in range(2):
+                w2.fw._process_current_orders(events.CurrentOrdersEvent([mock.Mock(orders=cos, client=w2.client)]))
+            adopted = [o for m in w2.fw.markets for o in m.blotter]
+            payload = {"seed": seed, "case": "adoption-%d" % case}
+            res.evaluations += 1
+            for b in bets:
+                res.distribution["adopted:%s" % b["kind"]] += 1
+                got = [o for o in adopted if str(o.bet_id) == str(b["bet"])]
+                if len(got) != 1:
+                    res.violate("adoption-count", "%s bet %s adopted %d times after a restart" % (b["kind"], b["bet"], len(got)), payload)
+                    continue
+                o = got[0]
+                ot_ = o.order_type
+                problems = []
+                if ot_.ORDER_TYPE.name != b["kind"] or o.side != b["side"] or o.selection_id != b["sel"]:
+                    problems.append("type / side / selection %s %s %s" % (ot_.ORDER_TYPE.name, o.side, o.selection_id))
+                if b["kind"] == "LIMIT" and (ot_.price != b["price"] or ot_.size != b["size"]):
+                    problems.append("limit order %s @ %s" % (ot_.size, ot_.price))
+                if b["kind"] == "LIMIT_ON_CLOSE" and (ot_.liability != b["liab"] or ot_.price != b["price"]):
+                    problems.append("limit-on-close liability %s price %s" % (ot_.liability, ot_.price))
+                if b["kind"] == "MARKET_ON_CLOSE" and ot_.liability != b["liab"]:
+                    problems.append("market-on-close liability %s" % ot_.liability)
+                if problems:
+                    res.violate("adopted-order-disagrees", "adopted bet %s (%s %s price %s size %s liability %s): %s" % (
+                        b["bet"], b["side"], b["kind"], b["price"], b["size"], b["liab"], "; ".join(problems)), payload)
+            res.nontrivial.add("adoption %d" % case)
+        finally:
+            w2.shutdown()
+
+
 def run(res, tier, seed, model_ok, search):
     res.rule = ("random interleavings of responses (success / failure / timeout / API errors), exchange-side fills and lapses, fresh, duplicated "
                 "and stale snapshots, further requests and placements for 1..5 orders of two strategies, synchronous and asynchronous "
                 "placement, replaced bets; then everything outstanding is answered and one snapshot of the exchange's bet table is processed: "
                 "agreement check; then a restart with the same exchange state (sometimes with one strategy missing). distinct = case index")
     run_histories(res, tier, seed, model_ok, search)
+    adoption_of_every_order_type(res, seed)
 
 
 def replay(payload):
@@ -408,6 +471,8 @@ def replay(payload):
     if isinstance(case, str):
         if case.startswith("directed-partial-cancel-"):
             directed_partial_cancel(res, seed, float(case.rsplit("-", 1)[1]))
+        if case.startswith("adoption-"):
+            adoption_of_every_order_type(res, seed)
         for v in res.violations:
             print("ORACLE", v["signature"], v["what"])
         return 1
